@@ -15,6 +15,7 @@ import (
 	"github.com/ajitpratap0/GoSQLX/pkg/models"
 	textsec "github.com/ajitpratap0/GoSQLX/pkg/security"
 	"github.com/ajitpratap0/GoSQLX/pkg/sql/ast"
+	"github.com/ajitpratap0/GoSQLX/pkg/sql/parser"
 	"github.com/ajitpratap0/GoSQLX/pkg/sql/security"
 	"github.com/ajitpratap0/GoSQLX/pkg/sql/tokenizer"
 	"verifharness/dump"
@@ -422,7 +423,7 @@ func c09Ownership(a *ChildArgs, workers int) {
 			}
 			for s := 0; s < steps; s++ {
 				op := []string{"parse-hold", "parse-hold", "tokenize-hold", "comments-hold", "parse-release", "format", "extract-hold", "scan-hold", "release-held-tree", "pool-churn", "parse-with-comments-format",
-					"batch-hold", "rejected-calls", "release-held-tree"}[r.Intn(14)]
+					"batch-hold", "rejected-calls", "release-held-tree", "parser-tokens-hold"}[r.Intn(15)]
 				sql := gen.Plain(g.Statement(2).Toks)
 				switch op {
 				case "parse-hold":
@@ -457,6 +458,32 @@ func c09Ownership(a *ChildArgs, workers int) {
 						_, _ = gosqlx.ParseWithTimeout(bad, time.Second)
 						_, _ = gosqlx.ParseWithRecovery(bad)
 						_ = gosqlx.Validate(bad)
+					}
+				case "parser-tokens-hold":
+					// the caller's parser-token stream (here of a two-statement script), handed to the token-level entry
+					// points whole and as per-statement sub-slices that have spare capacity behind them
+					script := sql + " ; " + gen.Plain(g.Statement(1).Toks)
+					if _, toks, err := parser.ParseBytesWithTokens([]byte(script)); err == nil && len(toks) > 3 {
+						tt := toks
+						holds = append(holds, held{What: "parser-tokens", Snap: dump.Dump(tt), Get: func() string { return dump.Dump(tt) }})
+						cut := 0
+						for k, t := range tt {
+							if t.Type == models.TokenTypeSemicolon {
+								cut = k
+								break
+							}
+						}
+						if cut > 0 {
+							sub := tt[:cut]
+							for _, f := range []func(){
+								func() { p := parser.NewParser(); _, _ = p.Parse(sub); p.Release() },
+								func() { p := parser.NewParser(); _, _ = p.ParseContext(context.Background(), sub); p.Release() },
+								func() { p := parser.NewParser(); _, _ = p.ParseWithRecovery(sub); p.Release() },
+								func() { res := parser.ParseMultiWithRecovery(sub); res.Release() },
+							} {
+								f()
+							}
+						}
 					}
 				case "tokenize-hold":
 					tk.Reset()
